@@ -327,20 +327,20 @@ impl Prop for C12 {
         }
     }
     fn rule(&self) -> &'static str {
-        "One case = 1..8 reference clients each running a script over {connect at a time, send text/binary messages (possibly fragmented, bursts of several within one poll interval; plain, asking the handler for a unicast reply, asking for a broadcast), ping, sleep} and ending by Close frame, abrupt FIN, going silent (partition, with heartbeat on) or staying connected; an external AsyncSender thread issuing unicasts and broadcasts (3..60 KB ones when a slow-reading client with a 600..4000-byte receive window is present) at scripted virtual times; handler pools of 1..8 threads; poll interval 0..10 ms; heartbeat off or (interval, timeout); linked and unlinked construction; then the shutdown signal. All under one seeded schedule (random / sticky / PCT / round-robin) of the poll loop, the pool, the front App and the clients. Distinct = distinct event-log shape (per client: connect / message count / disconnect, order class) plus configuration; non-trivial = at least two clients or one client with at least two messages, and at least one server-side send."
+        "One case = 1..8 reference clients each running a script over {connect at a time, send text/binary messages (possibly fragmented, bursts of several within one poll interval; plain, asking the handler for a unicast reply, asking for a broadcast), ping, sleep} and ending by Close frame, abrupt FIN, going silent (partition, with heartbeat on) or staying connected; an external AsyncSender thread issuing unicasts and broadcasts (3..60 KB ones when a slow-reading client with a 600..4000-byte receive window is present) at scripted virtual times; handler pools of 1..8 threads; poll interval none / 1..10 ms; heartbeat off or (interval, timeout); linked and unlinked construction; then the shutdown signal. All under one seeded schedule (random / sticky / PCT / round-robin) of the poll loop, the pool, the front App and the clients. Distinct = distinct event-log shape (per client: connect / message count / disconnect, order class) plus configuration; non-trivial = at least two clients or one client with at least two messages, and at least one server-side send."
     }
     fn assumptions(&self) -> Vec<String> {
         vec![
             "handler invocation order equals dispatch order only with a one-thread handler pool; strict per-client order is asserted there, exactly-once always".into(),
             "a broadcast must reach a client exactly once if that client stays connected from before the broadcast is requested until the end of the scenario; clients in the admission/removal window at most once".into(),
             "messages written before an abrupt FIN are still owed (TCP delivers them before the FIN); messages of a client that went silent are not".into(),
-            "heartbeat interval is generated below half the timeout (a live client's last_pong is refreshed once per interval)".into(),
+            "heartbeat timeouts are 1.5 x, 2 x (Humphrey's default ratio) or several times the interval, and the network round trip is kept below an eighth of (timeout - interval): a live client's last pong is then never older than the timeout when it is checked".into(),
             "the streams map iterates in a fixed (seeded-hasher) order under the hook; RandomState order is not explored".into(),
-            "poll intervals are 1..10 ms: with interval 0/None the loop spins and virtual time would advance only by per-decision CPU ticks".into(),
+            "poll intervals are 1..10 ms, or none at all (one case in eight): the loop then spins and virtual time advances only by the per-decision CPU cost, drawn up to 40 us in those cases".into(),
         ]
     }
     fn expected_counters(&self) -> Vec<&'static str> {
-        vec!["c12.clients", "c12.messages_sent", "c12.fragmented", "c12.bursts", "c12.unicast_replies", "c12.handler_broadcasts", "c12.external_sends", "c12.close_endings", "c12.fin_endings", "c12.silent_endings", "c12.close_near_timeout_endings", "c12.heartbeat_on", "c12.linked", "c12.unlinked", "c12.single_handler_thread", "c12.slow_reader", "net.silent_peer"]
+        vec!["c12.clients", "c12.messages_sent", "c12.fragmented", "c12.bursts", "c12.unicast_replies", "c12.handler_broadcasts", "c12.external_sends", "c12.close_endings", "c12.fin_endings", "c12.silent_endings", "c12.close_near_timeout_endings", "c12.heartbeat_on", "c12.linked", "c12.unlinked", "c12.single_handler_thread", "c12.slow_reader", "c12.no_poll_interval", "net.silent_peer"]
     }
     fn real_vs_stub(&self) -> (Vec<&'static str>, Vec<&'static str>) {
         (vec!["AsyncWebsocketApp::run, AsyncStream/AsyncSender, async_websocket_handler + handshake, WebsocketStream::recv_nonblocking/send/ping, ThreadPool, App"], vec!["threads, Mutex/mpsc, sleep, Instant, TCP, the streams HashMap's hasher (humsim)", "clients are harness reference RFC 6455 implementations"])
@@ -384,6 +384,11 @@ impl Prop for C12 {
         // blocked in a write to a slow reader would let other clients' heartbeats lapse, which is
         // Humphrey's design and not what this property judges)
         let mut rng2 = Rng::new(humsim::rng::mix(&[run_seed(seed, "C12", idx), 0xC12_0002]));
+        // tight heartbeats: Humphrey's default ratio (timeout = 2 x interval) and 1.5 x
+        let heartbeat = match heartbeat {
+            Some((i, _)) if rng2.chance(1, 2) => Some((i, if rng2.chance(2, 3) { 2 * i } else { i + i / 2 })),
+            h => h,
+        };
         if heartbeat.is_none() && rng2.chance(1, 4) {
             let k = rng2.usize_below(nclients);
             clients[k].window = Some(rng2.range(600, 4000) as usize);
@@ -400,7 +405,14 @@ impl Prop for C12 {
         sim.rx_capacity = None;
         sim.cpu_tick_max_ns = Some(2000);
         sim.max_decisions = 1_500_000;
-        serde_json::to_value(Scn { sim, linked: rng.chance(1, 2), handler_threads: [1usize, 1, 2, 4, 8][rng.usize_below(5)], poll_ms: [1u64, 2, 5, 10, 10][rng.usize_below(5)], heartbeat, clients, external }).unwrap()
+        let linked = rng.chance(1, 2);
+        let handler_threads = [1usize, 1, 2, 4, 8][rng.usize_below(5)];
+        let mut poll_ms = [1u64, 2, 5, 10, 10][rng.usize_below(5)];
+        // no polling interval at all (the loop spins): one case in eight
+        if rng2.chance(1, 8) {
+            poll_ms = 0;
+        }
+        serde_json::to_value(Scn { sim, linked, handler_threads, poll_ms, heartbeat, clients, external }).unwrap()
     }
 
     fn execute(&self, scenario: &Value) -> RunResult {
@@ -424,6 +436,18 @@ impl Prop for C12 {
             scn.sim.default_seg = None;
             scn.heartbeat = None;
         }
+        // without a polling interval the loop spins: virtual time then advances only by the per-decision
+        // CPU cost, which is made coarse (up to 40 us) so that seconds of virtual time stay affordable
+        if scn.poll_ms == 0 {
+            scn.sim.cpu_tick_max_ns = Some(40_000);
+            scn.sim.max_decisions = 6_000_000;
+            // a spinning thread never blocks, so only a fair strategy is a legal schedule for it
+            // (under PCT or a sticky strategy it would keep the baton forever, which no OS does)
+            if scn.sim.strategy != "rr" {
+                scn.sim.strategy = "random".into();
+            }
+            rr.count("c12.no_poll_interval", 1);
+        }
         let slow_extra_ms = if slow { 1500 + scn.clients.iter().map(|c| c.read_pause_ms.min(1000)).max().unwrap_or(0) } else { 0 };
         let server: SocketAddr = "10.3.1.1:8090".parse().unwrap();
         let outs: Vec<Arc<Mutex<ClientOut>>> = scn.clients.iter().map(|_| Arc::new(Mutex::new(ClientOut::default()))).collect();
@@ -432,7 +456,14 @@ impl Prop for C12 {
         let ext_log: Arc<Mutex<Vec<(u64, Vec<u8>, Option<usize>)>>> = Arc::new(Mutex::new(Vec::new()));
         let run_returned: Arc<Mutex<Option<(u64, u64)>>> = Arc::new(Mutex::new(None)); // (shutdown sent ns, returned ns)
         let (scn2, outs2, hs2, ext2, rr2) = (scn.clone(), outs.clone(), hstate.clone(), ext_log.clone(), run_returned.clone());
-        let hb = scn.heartbeat.map(|(i, t)| (i.max(50), t.max(4 * i.max(50))));
+        // (timeout at least 1.5 x interval: a live client's last pong is at most one interval plus one
+        // poll period plus one round trip old when the timeout is checked)
+        let hb = scn.heartbeat.map(|(i, t)| (i.max(50), t.max(i.max(50) + i.max(50) / 2)));
+        if let Some((i, t)) = hb {
+            // the round trip must be short compared with the margin between timeout and interval
+            let cap_ns = (t - i) * 1_000_000 / 8;
+            scn.sim.latency_max_ns = Some(scn.sim.latency_max_ns.unwrap_or(cap_ns).min(cap_ns));
+        }
         // an abrupt end (FIN without Close frame, or silence) is only detectable through the
         // heartbeat: without one such a client simply stays (the property's quantifier says
         // "abrupt disconnect with heartbeat on")
@@ -447,7 +478,7 @@ impl Prop for C12 {
             let (tx, rx) = humsim::sync::mpsc::channel::<()>();
             let build = |app: AsyncWebsocketApp<Arc<HState>>| {
                 let mut app = app
-                    .with_polling_interval(Some(Duration::from_millis(scn.poll_ms.clamp(1, 50))))
+                    .with_polling_interval(if scn.poll_ms == 0 { None } else { Some(Duration::from_millis(scn.poll_ms.clamp(1, 50))) })
                     .with_connect_handler(|s: AsyncStream, st: Arc<Arc<HState>>| {
                         st.log.lock().unwrap().push(Ev::Connect(s.peer_addr(), sim::decision_index()));
                     })
